@@ -154,8 +154,15 @@ class Recorder:
             self.stats.inconclusive += n
 
     def sample(self, obj, limit=3):
-        if self.counting and len(self.stats.samples) < limit:
+        """Keeps the first case and, in the other slots, cases from later in the run (Hypothesis starts
+        with the simplest values; later cases show what the generator really produces)."""
+        if not self.counting:
+            return
+        limit = max(limit, 3)
+        if len(self.stats.samples) < limit:
             self.stats.samples.append(to_jsonable(obj))
+        elif self.stats.cases % 7 == 0:
+            self.stats.samples[1 + (self.stats.cases // 7) % (limit - 1)] = to_jsonable(obj)
 
     def fail(self, bucket: str, message: str):
         """Report an oracle failure. Known-open buckets are counted and do not fail the
@@ -472,7 +479,7 @@ def run_property(pid, modname, tier, seed, level, rule, assumptions, procs=16, o
         nontriv |= {(m.name, x) for x in m.nontrivial}
     samples = []
     for m in merged.values():
-        for s in m.samples[:2]:
+        for s in m.samples[:3]:
             samples.append({"facet": m.name, "case": s})
     exh_flags = [m.exhaustive for m in merged.values()]
     ev = {
